@@ -317,15 +317,18 @@ def main(chk):
 
 def model_level(chk, tmp):
     """Requirement is decidable; the aligned implementation refines it; the as-is rule is refuted on exactly one clause."""
-    q, e, pool = (3, 4, 4) if chk.quick else (4, 4, 5)
+    q, e, pool = (3, 4, 4) if chk.quick else (4, 4, 4)
     # requirement alone: some outcome is always allowed, exactly one for a well-formed entry
     chk.tlc('Entry', cfg_entry(os.path.join(tmp, 'req.cfg'), 'Spec', NUMERIC, 3, 2, 3, 2, 1, True, None, False,
                                ['Decided', 'RefusedWhenIncomplete', 'ServedWhenComplete', 'ShapeIsQuery', 'ColumnsByName',
                                 'ValuesCast']), require=BUILD + ['Serve'], workers=4)
     # the repaired rule refines every clause, inside the largest constants of the tier
-    for kinds, (mq, me, pl) in ((NUMERIC, (q, e, pool)), (TEMPORAL, (q - 1, e - 1, pool - 1))):
-        chk.tlc('MatchEntryImpl', cfg_entry(os.path.join(tmp, f'aligned-{kinds[0]}.cfg'), 'ImplSpec', kinds, pl, mq, me, 1, 1,
-                                            False, 'aligned', False, STRUCTURAL + ['ValuesCast']),
+    bounds = [(NUMERIC, (q, e, pool)), (TEMPORAL, (q - 1, e - 1, pool - 1))]
+    if not chk.quick:
+        bounds.append((NUMERIC, (2, 5, 5)))  # wide entries: up to 3 extra columns anywhere
+    for kinds, (mq, me, pl) in bounds:
+        chk.tlc('MatchEntryImpl', cfg_entry(os.path.join(tmp, f'aligned-{kinds[0]}-{mq}{me}{pl}.cfg'), 'ImplSpec', kinds, pl, mq, me,
+                                            1, 1, False, 'aligned', False, STRUCTURAL + ['ValuesCast']),
                 require=BUILD + ['ServeImpl'], workers=8)
     # repeated names: the scan of _match_entry (last one wins) stays inside the allowed choices
     chk.tlc('MatchEntryImpl', cfg_entry(os.path.join(tmp, 'dup.cfg'), 'ImplSpec', NUMERIC, 3, 2, 3 if chk.quick else 4, 1, 1,
@@ -336,8 +339,7 @@ def model_level(chk, tmp):
     res = chk.tlc('MatchEntryImpl', cfg_entry(os.path.join(tmp, 'asis-cast.cfg'), 'ImplSpec', NUMERIC, 3, 2, 3, 1, 1, False,
                                               'asis', False, ['ValuesCast']), expect_ok=False, workers=4)
     chk.selftest('model_refutes_asis_cast_rule', res.violated == 'ValuesCast')
-    chk.extra['entry_model'] = {'query_fields': f'1..{q}', 'entry_columns': f'1..{e}', 'names': pool,
-                                'kinds': [list(NUMERIC), list(TEMPORAL)]}
+    chk.extra['entry_model'] = {'bounds (kinds, (query fields, entry columns, names))': [[list(k), list(b)] for k, b in bounds]}
 
 
 def classify(chk, vec, got, route, container, flavour):
@@ -636,8 +638,11 @@ def tabular(chk, tmp):
         if not states or len(states) != res.distinct:
             raise tlc.MachineryError(f'Tabular.tla exported {len(states)} of {res.distinct} states')
         jobs = []
-        for n, state in enumerate(states):  # selections on all three tables; Slicer applications mostly on one of them
-            for impl in (CONTAINERS if not state['sliced']['done'] or n % 4 == 0 else (CONTAINERS[n % 3],)):
+        for n, state in enumerate(states):
+            # single selections on all three tables; Slicer applications and second selections on all three for every
+            # 4th / 3rd state and on one of them (rotating) otherwise
+            every = len(state['hist']) <= 1 and not state['sliced']['done'] or n % (4 if state['sliced']['done'] else 3) == 0
+            for impl in (CONTAINERS if every else (CONTAINERS[n % 3],)):
                 jobs.append((n, impl))
         results = pmap('table_job', [(impl, nr, nc, states[n]['hist']) for n, impl in jobs])
         for (n, impl), seen in zip(jobs, results):
